@@ -2,6 +2,7 @@
 (shared by C04 and C05; DESIGN §3 C04/C05)."""
 from __future__ import annotations
 
+import asyncio
 from collections import Counter, deque
 
 from vf.ref.router import BLOB_KINDS, CLIENT_KINDS, DEVICE_KINDS, Model
@@ -106,6 +107,7 @@ class Real:
         real = self
         # every second client and the catch-all device are "empty containers" (falsy)
         self.falsy = set(uni.clients[1::2]) | {d for d in uni.devices if d == "*"}
+        self.loop = None
 
         def react(side, eid, endpoint, message):
             r = real.reactions.get((side, eid))
@@ -159,7 +161,23 @@ class Real:
         raise LookupError(f"device {did!r} was registered with the router but the router no longer knows it")
 
     def apply(self, op):
-        """Returns (deliveries as sorted list, exception or None)."""
+        """Returns (deliveries as sorted list, exception or None).  With `self.loop` set the operation is executed INSIDE a running
+        event loop (as the transports do) and the loop is drained before the deliveries are read: a router that defers a delivery
+        to the loop is then still observed."""
+        if getattr(self, "loop", None) is not None and not getattr(self, "_in_loop", False):
+            async def run():
+                self._in_loop = True
+                try:
+                    out = self.apply(op)
+                finally:
+                    self._in_loop = False
+                before = len(self.log)
+                for _ in range(3):
+                    await asyncio.sleep(0)
+                if len(self.log) != before:
+                    out = (sorted((side, eid) for side, eid, m in self.log), out[1], out[2])
+                return out
+            return self.loop.run_until_complete(run())
         del self.log[:]
         self.armed = set(self.reactions)
         kind = op[0]
@@ -425,6 +443,9 @@ def random_history(ctx, uni, judge, i, length):
     rng = ctx.rng("hist", i)
     ex = Explorer(ctx, uni, judge, {"mode": "random", "i": i, "length": length, "uni": [uni.devices, uni.clients]})
     real = Real(uni)
+    if i % 2:
+        real.loop = asyncio.new_event_loop()
+        ctx.count("histories_inside_a_running_event_loop")
     model = Model(uni.accepts())
     history = []
     for step in range(length):
@@ -442,6 +463,8 @@ def random_history(ctx, uni, judge, i, length):
             op = rng.choice(pops)
         ex.compare(real, model, op, history)
         history.append(op)
+    if real.loop is not None:
+        real.loop.close()
     ctx.count("random_histories")
     if i % 50 == 0:
         ctx.sample({"random_history": [list(o) for o in history[:25]]})
@@ -465,7 +488,7 @@ def replay_history(ctx, uni, judge, history, op):
 # ---- re-entrant endpoints --------------------------------------------------------------------------------------------
 
 CLIENT_TRIGGERS = DEF_KINDS + SET_KINDS + ["getProperties", "message", "delProperty"]
-DEVICE_TRIGGERS = NEW_KINDS + ["getProperties"]
+DEVICE_TRIGGERS = NEW_KINDS + ["getProperties", "enableBLOB"]
 
 
 def reactive_expected(model, op, reactions):
@@ -473,15 +496,20 @@ def reactive_expected(model, op, reactions):
     state and each endpoint fires at most once per operation, so the multiset does not depend on the router's iteration order."""
     total = Counter()
     fired = set()
-    work = [(op[2], op[3], op[1])]
+    if op[0] == "blob":
+        # the one state-changing top-level operation: the new policy is in force for everything the message sets off, including
+        # what a device sends back from inside its handling of the enableBLOB
+        work = [("enableBLOB", op[2], op[1], op[3])]
+    else:
+        work = [(op[2], op[3], op[1], None)]
     while work:
-        kind, name, sender = work.pop()
-        for side, eid in model.deliver(kind, name, sender):
+        kind, name, sender, value = work.pop()
+        for side, eid in (model.deliver(kind, name, sender, value) if kind == "enableBLOB" else model.deliver(kind, name, sender)):
             total[(side, eid)] += 1
             r = reactions.get((side, eid))
             if r is not None and (side, eid) not in fired and kind in r[0]:
                 fired.add((side, eid))
-                work.append((r[1], r[2], eid))
+                work.append((r[1], r[2], eid, None))
     return total, fired
 
 
@@ -520,6 +548,7 @@ def reactive_history(ctx, uni, judge, i):
         reactions[(side, eid)] = (trig, kind, name)
     real.reactions = reactions
     pops = [o for o in send_ops(uni, model)]
+    pops += [("blob", c, name, v) for c in model.clients for name in uni.names for v in POLICIES] * 3
     case_base = {"mode": "reactive", "i": i, "uni": [uni.devices, uni.clients]}
     for step in range(12):
         op = rng.choice(pops)
@@ -532,7 +561,10 @@ def reactive_history(ctx, uni, judge, i):
         ctx.count("deliveries_observed", len(got_list))
         ctx.count("reentrant_operations")
         ctx.count("reentrant_sends_from_inside_a_delivery", len(fired))
-        ctx.count("client_originated_messages" if op[0] == "csend" else "device_originated_messages")
+        ctx.count("client_originated_messages" if op[0] in ("csend", "blob") else "device_originated_messages")
+        if op[0] == "blob":
+            history.append(op)
+            ctx.count("reentrant_enableBLOB_operations")
         if exc is None and got == want:
             continue
         case = dict(case_base, step=step, op=list(op))
